@@ -36,7 +36,7 @@ var (
 	storePrefix = []byte{0, 0, 0, 9}
 	subA        = []byte{0, 1}
 	subB        = []byte{0, 2}
-	keysU       = [][]byte{[]byte("k0"), []byte("k1")}
+	keysU       = [][]byte{[]byte("k0"), []byte("k1-a-32-byte-key-like-an-id-hash")} // one short key, one of 32 bytes (IDs and hashes are keys of that length)
 	vals        = [][]byte{nil, []byte("value-1"), []byte("value-two")}
 )
 
